@@ -132,3 +132,296 @@ Definition notif_after_accept (l : list frame) : Prop :=
 Definition closing_of (sid : N) (f : frame) : bool := is_notif f && is_closing f && N.eqb (frame_sid f) sid.
 Definition count_closing (sid : N) (l : list frame) : nat := length (filter (closing_of sid) l).
 Definition ret_pending (b : sub) : nat := match s_ret b with Some _ => 1 | None => 0 end.
+
+Definition b2n (b : bool) : nat := if b then 1 else 0.
+
+Record Inv (s : st) : Prop := mkInv {
+  inv_sub : forall h b, nth_error (subs s) h = Some b -> sub_ok (id_base s) (notif_meth s) (length (conns s)) h b;
+  inv_table : forall k, In k (table s) <-> exists h b, nth_error (subs s) h = Some b /\ akey b = Some k;
+  inv_count : forall c cn, nth_error (conns s) c = Some cn -> c_permits cn + count_on s c = c_cap cn;
+  inv_frames : forall c cn f, nth_error (conns s) c = Some cn -> In f (sent cn) -> is_notif f = true ->
+      exists h b, nth_error (subs s) h = Some b /\ s_conn b = c /\ s_id b = frame_sid f /\ s_meth b = frame_meth f /\
+                  s_state b = SActive;
+  inv_accepted : forall h b, nth_error (subs s) h = Some b -> accepted b ->
+      exists cn, nth_error (conns s) (s_conn b) = Some cn /\ In (FSubOk (s_req b) (s_id b)) (sent cn);
+  inv_order : forall c cn, nth_error (conns s) c = Some cn -> notif_after_accept (sent cn);
+  inv_closing : forall h b cn, nth_error (subs s) h = Some b -> nth_error (conns s) (s_conn b) = Some cn ->
+      count_closing (s_id b) (sent cn) + ret_pending b <= 1 /\
+      (1 <= count_closing (s_id b) (sent cn) -> s_returned b = true) }.
+
+(* what the handler produced for handle h: the items of its sends that returned Ok, in order *)
+Definition log_item (h : nat) (ob : obs) : option N :=
+  match ob with OSendResult h' _ x true => if Nat.eqb h' h then Some x else None | _ => None end.
+Definition log_of (h : nat) (o : list obs) : list N := filter_map (log_item h) o.
+
+Record InvO (s : st) (o : list obs) : Prop := mkInvO {
+  io_fifo : forall h b cn, nth_error (subs s) h = Some b -> nth_error (conns s) (s_conn b) = Some cn ->
+      filter_map (plain_item (s_id b)) (sent cn) = log_of h o;
+  io_bound : forall h k x ok, In (OSendResult h k x ok) o -> h < length (subs s);
+  io_unsub : forall h b, nth_error (subs s) h = Some b -> s_state b = SActive -> s_unsubscribed b = true ->
+      s_sinks b <> [] -> exists req, In (OUnsubAnswer (s_conn b) req (s_id b) true) o }.
+
+(* monotone facts of one step, used for "once closed, stays closed" *)
+Definition same_static (b b' : sub) : Prop :=
+  s_conn b' = s_conn b /\ s_id b' = s_id b /\ s_req b' = s_req b /\ s_meth b' = s_meth b.
+Definition Mono (s s' : st) : Prop :=
+  (forall c, conn_open s' c = true -> conn_open s c = true) /\
+  (forall h b, nth_error (subs s) h = Some b ->
+     exists b', nth_error (subs s') h = Some b' /\ same_static b b' /\
+                (s_state b = SActive -> s_state b' = SActive /\ (s_unsubscribed b = true -> s_unsubscribed b' = true))).
+
+Lemma Mono_refl : forall s, Mono s s.
+Proof. intro s. split; [auto|]. intros h b H. exists b. repeat split; auto. Qed.
+
+Lemma Mono_trans : forall s1 s2 s3, Mono s1 s2 -> Mono s2 s3 -> Mono s1 s3.
+Proof.
+  intros s1 s2 s3 [A1 B1] [A2 B2]. split; [auto|].
+  intros h b H. destruct (B1 _ _ H) as [b2 [H2 [[S1 [S2 [S3 S4]]] M2]]]. destruct (B2 _ _ H2) as [b3 [H3 [[T1 [T2 [T3 T4]]] M3]]].
+  exists b3. split; [assumption|]. split; [unfold same_static; repeat split; congruence|].
+  intro Ha. destruct (M2 Ha) as [Ha2 U2]. destruct (M3 Ha2) as [Ha3 U3]. split; auto.
+Qed.
+
+Lemma akey_key : forall b k, akey b = Some k -> k = key_of b /\ s_state b = SActive /\ s_unsubscribed b = false.
+Proof.
+  intros b k. unfold akey. destruct (s_state b); try discriminate. destruct (s_unsubscribed b); try discriminate.
+  intro H. inversion H. auto.
+Qed.
+
+Lemma ids_inj : forall s h1 h2 b1 b2, Inv s -> nth_error (subs s) h1 = Some b1 -> nth_error (subs s) h2 = Some b2 ->
+  s_id b1 = s_id b2 -> h1 = h2.
+Proof.
+  intros s h1 h2 b1 b2 I H1 H2 E.
+  destruct (inv_sub s I _ _ H1) as [E1 _]. destruct (inv_sub s I _ _ H2) as [E2 _].
+  rewrite E1, E2 in E. apply N.add_cancel_l in E. apply Nat2N.inj in E. assumption.
+Qed.
+
+Lemma filter_map_none : forall A B (f : A -> option B) l, (forall a, In a l -> f a = None) -> filter_map f l = [].
+Proof.
+  induction l as [|a l IH]; intro H; cbn; [reflexivity|]. rewrite (H a (or_introl eq_refl)). apply IH. intros. apply H. right. assumption.
+Qed.
+
+Lemma log_of_app : forall h o1 o2, log_of h (o1 ++ o2) = log_of h o1 ++ log_of h o2.
+Proof. intros. apply filter_map_app. Qed.
+
+Lemma count_closing_app : forall sid l1 l2, count_closing sid (l1 ++ l2) = count_closing sid l1 + count_closing sid l2.
+Proof. intros. unfold count_closing. rewrite filter_app, app_length. reflexivity. Qed.
+
+Lemma count_closing_zero : forall sid l, (forall f, In f l -> is_notif f = true -> frame_sid f <> sid) -> count_closing sid l = 0.
+Proof.
+  intros sid l H. unfold count_closing. induction l as [|f l IH]; cbn; [reflexivity|].
+  assert (E : closing_of sid f = false).
+  { unfold closing_of. destruct (is_notif f) eqn:En; cbn; [|reflexivity]. destruct (is_closing f); cbn; [|reflexivity].
+    apply N.eqb_neq. apply H; [left; reflexivity | assumption]. }
+  rewrite E. apply IH. intros. apply H; [right|]; assumption.
+Qed.
+
+Lemma plain_item_some : forall sid f x, plain_item sid f = Some x -> is_notif f = true /\ frame_sid f = sid.
+Proof.
+  intros sid f x. destruct f; cbn; try discriminate. destruct closing; try discriminate.
+  destruct (N.eqb_spec sid0 sid); try discriminate. intros _. auto.
+Qed.
+
+Lemma plain_none : forall sid l, (forall f, In f l -> is_notif f = true -> frame_sid f <> sid) -> filter_map (plain_item sid) l = [].
+Proof.
+  intros sid l H. apply filter_map_none. intros f Hf. destruct (plain_item sid f) eqn:E; [|reflexivity].
+  apply plain_item_some in E. destruct E as [E1 E2]. exfalso. exact (H f Hf E1 E2).
+Qed.
+
+Lemma app_snoc_split : forall A (l : list A) g pre f post, l ++ [g] = pre ++ f :: post ->
+  (post = [] /\ pre = l /\ f = g) \/ (exists post', post = post' ++ [g] /\ l = pre ++ f :: post').
+Proof.
+  intros A l g pre f post H.
+  assert (C : post = [] \/ exists post' z, post = post' ++ [z]).
+  { destruct post as [|p post]; [left; reflexivity|]. right.
+    destruct (exists_last (l := p :: post)) as [q [z Hq]]; [discriminate|]. exists q, z. assumption. }
+  destruct C as [-> | [post' [z ->]]].
+  - left. apply app_inj_tail in H. destruct H. subst. auto.
+  - right. change (pre ++ f :: post' ++ [z]) with (pre ++ (f :: post') ++ [z]) in H. rewrite app_assoc in H.
+    apply app_inj_tail in H. destruct H. subst. exists post'. auto.
+Qed.
+
+Lemma naa_app : forall l extra, notif_after_accept l ->
+  (forall f, In f extra -> is_notif f = true -> exists req, In (FSubOk req (frame_sid f)) l) ->
+  notif_after_accept (l ++ extra).
+Proof.
+  intros l extra. revert l. induction extra as [|g extra IH]; intros l Hl Hx.
+  - rewrite app_nil_r. assumption.
+  - replace (l ++ g :: extra) with ((l ++ [g]) ++ extra) by (rewrite <- app_assoc; reflexivity).
+    apply IH.
+    + intros pre f post E Hn. apply app_snoc_split in E. destruct E as [[-> [-> ->]] | [post' [-> ->]]].
+      * apply Hx; [left; reflexivity | assumption].
+      * eapply Hl; [reflexivity | assumption].
+    + intros f Hf Hn. destruct (Hx f (or_intror Hf) Hn) as [req Hr]. exists req. apply in_or_app. left. assumption.
+Qed.
+
+(* ------------------------------------------------------------------ the generic handler-side step *)
+Lemma upd_lookup : forall A (f : A -> A) l n x m y, nth_error l n = Some x -> nth_error (upd n f l) m = Some y ->
+  (m = n /\ y = f x) \/ (m <> n /\ nth_error l m = Some y).
+Proof.
+  intros A f l n x m y Hx H. rewrite nth_error_upd in H. destruct (Nat.eqb_spec m n).
+  - left. subst. rewrite Hx in H. cbn in H. inversion H. auto.
+  - right. auto.
+Qed.
+
+(* local conditions under which replacing subscription h (b -> b') and its connection (cn -> cn'), with table t',
+   observations o1 and appended frames `extra`, keeps every invariant *)
+Record local_ok (base meth : N) (n h : nat) (b b' : sub) (cn cn' : conn) (t t' : list (nat * N))
+                (o1 : list obs) (extra : list frame) : Prop := mkLocal {
+  lo_static : same_static b b';
+  lo_subok : sub_ok base meth n h b';
+  lo_active : s_state b = SActive -> s_state b' = SActive /\ (s_unsubscribed b = true -> s_unsubscribed b' = true);
+  lo_accepted : accepted b -> accepted b';
+  lo_conn : c_open cn' = c_open cn /\ c_cap cn' = c_cap cn /\ sent cn' = sent cn ++ extra;
+  lo_permits : c_permits cn' + b2n (s_has_permit b') = c_permits cn + b2n (s_has_permit b);
+  lo_table : (forall k, In k t' <-> (k <> key_of b /\ In k t) \/ akey b' = Some k) \/ (t' = t /\ akey b' = akey b);
+  lo_notif : forall f, In f extra -> is_notif f = true ->
+      frame_sid f = s_id b /\ frame_meth f = s_meth b /\ s_state b' = SActive /\ In (FSubOk (s_req b) (s_id b)) (sent cn);
+  lo_newacc : accepted b' -> accepted b \/ In (FSubOk (s_req b) (s_id b)) (sent cn ++ extra);
+  lo_closing : (count_closing (s_id b) extra + ret_pending b' <= ret_pending b \/
+                (s_returned b = false /\ count_closing (s_id b) extra = 0)) /\
+               (s_returned b = true -> s_returned b' = true) /\
+               (1 <= count_closing (s_id b) extra -> s_returned b' = true);
+  lo_fifo : forall h2, log_of h2 o1 = if Nat.eqb h2 h then filter_map (plain_item (s_id b)) extra else [];
+  lo_obs : forall h' k x ok, In (OSendResult h' k x ok) o1 -> h' = h;
+  lo_unsub : s_state b' = SActive -> s_unsubscribed b' = true -> s_sinks b' <> [] ->
+      s_state b = SActive /\ s_unsubscribed b = true /\ s_sinks b <> [] }.
+
+Lemma ret_pending_le : forall b, ret_pending b <= 1.
+Proof. intro b. unfold ret_pending. destruct (s_ret b); lia. Qed.
+
+Lemma apply_inv : forall s o h b cn fs fc t' o1 extra,
+  Inv s -> InvO s o -> nth_error (subs s) h = Some b -> nth_error (conns s) (s_conn b) = Some cn ->
+  local_ok (id_base s) (notif_meth s) (length (conns s)) h b (fs b) cn (fc cn) (table s) t' o1 extra ->
+  Inv (apply s h b fs fc t') /\ InvO (apply s h b fs fc t') (o ++ o1) /\ Mono s (apply s h b fs fc t').
+Proof.
+  intros s o h b cn fs fc t' o1 extra I IO Hb Hcn L.
+  destruct (lo_static _ _ _ _ _ _ _ _ _ _ _ _ L) as [St1 [St2 [St3 St4]]].
+  destruct (lo_conn _ _ _ _ _ _ _ _ _ _ _ _ L) as [Co1 [Co2 Co3]].
+  (* old subscription -> new subscription *)
+  assert (T : forall h2 b2, nth_error (subs s) h2 = Some b2 ->
+            exists b2', nth_error (upd h fs (subs s)) h2 = Some b2' /\ same_static b2 b2' /\
+              (s_state b2 = SActive -> s_state b2' = SActive /\ (s_unsubscribed b2 = true -> s_unsubscribed b2' = true)) /\
+              (accepted b2 -> accepted b2')).
+  { intros h2 b2 H2. destruct (Nat.eq_dec h2 h) as [->|Ne].
+    - rewrite Hb in H2. inversion H2; subst b2. exists (fs b). split; [apply nth_error_upd_same; assumption|].
+      split; [exact (lo_static _ _ _ _ _ _ _ _ _ _ _ _ L)|]. split; [exact (lo_active _ _ _ _ _ _ _ _ _ _ _ _ L) | exact (lo_accepted _ _ _ _ _ _ _ _ _ _ _ _ L)].
+    - exists b2. split; [rewrite nth_error_upd_other; assumption|]. unfold same_static. auto. }
+  (* every frame that was sent stays sent *)
+  assert (S : forall c2 cn2, nth_error (conns s) c2 = Some cn2 ->
+            exists cn2', nth_error (upd (s_conn b) fc (conns s)) c2 = Some cn2' /\ (forall f, In f (sent cn2) -> In f (sent cn2'))).
+  { intros c2 cn2 H2. destruct (Nat.eq_dec c2 (s_conn b)) as [->|Ne].
+    - rewrite Hcn in H2. inversion H2; subst cn2. exists (fc cn). split; [apply nth_error_upd_same; assumption|].
+      intros f Hf. rewrite Co3. apply in_or_app. left. assumption.
+    - exists cn2. split; [rewrite nth_error_upd_other; assumption | auto]. }
+  (* notifications among the appended frames carry b's own id, which no other subscription has *)
+  assert (X : forall h2 b2, h2 <> h -> nth_error (subs s) h2 = Some b2 ->
+            forall f, In f extra -> is_notif f = true -> frame_sid f <> s_id b2).
+  { intros h2 b2 Ne H2 f Hf Hn E. destruct (lo_notif _ _ _ _ _ _ _ _ _ _ _ _ L f Hf Hn) as [E1 _].
+    apply Ne. eapply ids_inj; eauto. congruence. }
+  split; [|split].
+  - constructor; unfold apply; cbn [subs conns table id_base notif_meth].
+    + (* inv_sub *)
+      intros h2 b2 H2. rewrite length_upd. destruct (upd_lookup _ _ _ _ _ _ _ Hb H2) as [[-> ->] | [Ne H2']].
+      * exact (lo_subok _ _ _ _ _ _ _ _ _ _ _ _ L).
+      * exact (inv_sub s I _ _ H2').
+    + (* inv_table *)
+      intro k. destruct (lo_table _ _ _ _ _ _ _ _ _ _ _ _ L) as [LT | [LT1 LT2]].
+      * rewrite LT. split.
+        -- intros [[Nk Hk] | Hk].
+           ++ apply (inv_table s I) in Hk. destruct Hk as [h2 [b2 [H2 K2]]].
+              assert (h2 <> h). { intro. subst h2. rewrite Hb in H2. inversion H2; subst b2. apply akey_key in K2. tauto. }
+              exists h2, b2. rewrite nth_error_upd_other by assumption. auto.
+           ++ exists h, (fs b). split; [apply nth_error_upd_same; assumption | assumption].
+        -- intros [h2 [b2 [H2 K2]]]. destruct (upd_lookup _ _ _ _ _ _ _ Hb H2) as [[-> ->] | [Ne H2']].
+           ++ right. assumption.
+           ++ left. split.
+              ** intro Ek. apply akey_key in K2. destruct K2 as [K2 _]. rewrite K2 in Ek. unfold key_of in Ek. inversion Ek.
+                 apply Ne. eapply ids_inj; eauto.
+              ** apply (inv_table s I). exists h2, b2. auto.
+      * rewrite LT1, (inv_table s I). split.
+        -- intros [h2 [b2 [H2 K2]]]. destruct (Nat.eq_dec h2 h) as [->|Ne].
+           ++ rewrite Hb in H2. inversion H2; subst b2. exists h, (fs b). split; [apply nth_error_upd_same; assumption | congruence].
+           ++ exists h2, b2. rewrite nth_error_upd_other by assumption. auto.
+        -- intros [h2 [b2 [H2 K2]]]. destruct (upd_lookup _ _ _ _ _ _ _ Hb H2) as [[-> ->] | [Ne H2']].
+           ++ exists h, b. split; [assumption | congruence].
+           ++ exists h2, b2. auto.
+    + (* inv_count *)
+      intros c2 cn2 H2. unfold count_on. cbn [subs].
+      pose proof (filter_length_upd _ (holds_on c2) fs _ _ _ Hb) as FL.
+      destruct (upd_lookup _ _ _ _ _ _ _ Hcn H2) as [[-> ->] | [Ne H2']].
+      * pose proof (inv_count s I _ _ Hcn) as IC. unfold count_on in IC.
+        pose proof (lo_permits _ _ _ _ _ _ _ _ _ _ _ _ L) as LP.
+        unfold holds_on in FL. rewrite St1, Nat.eqb_refl in FL. cbn [andb] in FL. unfold b2n in LP.
+        rewrite Co2. unfold holds_on in *. destruct (s_has_permit b), (s_has_permit (fs b)); lia.
+      * pose proof (inv_count s I _ _ H2') as IC. unfold count_on in IC.
+        unfold holds_on in FL. rewrite St1 in FL. destruct (Nat.eqb_spec (s_conn b) c2); [congruence|]. cbn [andb] in FL.
+        unfold holds_on in *. lia.
+    + (* inv_frames *)
+      intros c2 cn2 f H2 Hf Hn.
+      assert (Old : In f (sent cn2) -> nth_error (conns s) c2 = Some cn2 -> exists h0 b0,
+                nth_error (upd h fs (subs s)) h0 = Some b0 /\ s_conn b0 = c2 /\ s_id b0 = frame_sid f /\ s_meth b0 = frame_meth f /\ s_state b0 = SActive).
+      { intros Hf' H2'. destruct (inv_frames s I _ _ _ H2' Hf' Hn) as [h0 [b0 [H0 [E1 [E2 [E3 E4]]]]]].
+        destruct (T _ _ H0) as [b0' [H0' [[S1 [S2 [S3 S4]]] [Ac _]]]]. exists h0, b0'. destruct (Ac E4). repeat split; congruence. }
+      destruct (upd_lookup _ _ _ _ _ _ _ Hcn H2) as [[-> ->] | [Ne H2']].
+      * rewrite Co3 in Hf. apply in_app_or in Hf. destruct Hf as [Hf | Hf].
+        -- destruct (inv_frames s I _ _ _ Hcn Hf Hn) as [h0 [b0 [H0 [E1 [E2 [E3 E4]]]]]].
+           destruct (T _ _ H0) as [b0' [H0' [[S1 [S2 [S3 S4]]] [Ac _]]]]. exists h0, b0'. destruct (Ac E4). repeat split; congruence.
+        -- destruct (lo_notif _ _ _ _ _ _ _ _ _ _ _ _ L f Hf Hn) as [E1 [E2 [E3 _]]].
+           exists h, (fs b). split; [apply nth_error_upd_same; assumption|]. repeat split; congruence.
+      * apply Old; assumption.
+    + (* inv_accepted *)
+      intros h2 b2 H2 Ha. destruct (upd_lookup _ _ _ _ _ _ _ Hb H2) as [[-> ->] | [Ne H2']].
+      * rewrite St1, St2, St3. exists (fc cn). split; [apply nth_error_upd_same; assumption|]. rewrite Co3.
+        destruct (lo_newacc _ _ _ _ _ _ _ _ _ _ _ _ L Ha) as [Ha' | Hin]; [|assumption].
+        destruct (inv_accepted s I _ _ Hb Ha') as [cn0 [Hc0 Hin]]. rewrite Hcn in Hc0. inversion Hc0; subst cn0.
+        apply in_or_app. left. assumption.
+      * destruct (inv_accepted s I _ _ H2' Ha) as [cn0 [Hc0 Hin]]. destruct (S _ _ Hc0) as [cn0' [Hc0' Sub]].
+        exists cn0'. auto.
+    + (* inv_order *)
+      intros c2 cn2 H2. destruct (upd_lookup _ _ _ _ _ _ _ Hcn H2) as [[-> ->] | [Ne H2']].
+      * rewrite Co3. apply naa_app; [exact (inv_order s I _ _ Hcn)|].
+        intros f Hf Hn. destruct (lo_notif _ _ _ _ _ _ _ _ _ _ _ _ L f Hf Hn) as [E1 [_ [_ E4]]]. exists (s_req b). rewrite E1. assumption.
+      * exact (inv_order s I _ _ H2').
+    + (* inv_closing *)
+      intros h2 b2 cn2 H2 Hc2. destruct (upd_lookup _ _ _ _ _ _ _ Hb H2) as [[-> ->] | [Ne H2']].
+      * rewrite St1 in Hc2. rewrite nth_error_upd_same with (b := cn) in Hc2 by assumption. inversion Hc2; subst cn2.
+        rewrite St2, Co3, count_closing_app.
+        destruct (inv_closing s I _ _ _ Hb Hcn) as [C1 C2].
+        destruct (lo_closing _ _ _ _ _ _ _ _ _ _ _ _ L) as [[D1 | [D1 D1']] [D2 D3]].
+        -- split; [lia|]. intro Hge. destruct (Nat.eq_dec (count_closing (s_id b) extra) 0) as [Z|NZ].
+           ++ apply D2. apply C2. lia.
+           ++ apply D3. lia.
+        -- assert (count_closing (s_id b) (sent cn) = 0).
+           { destruct (count_closing (s_id b) (sent cn)) eqn:E; [reflexivity|]. rewrite C2 in D1 by lia. discriminate. }
+           pose proof (ret_pending_le (fs b)). split; [lia|]. intro. lia.
+      * destruct (upd_lookup _ _ _ _ _ _ _ Hcn Hc2) as [[Ec ->] | [Nc Hc2']].
+        -- rewrite Co3, count_closing_app.
+           rewrite (count_closing_zero (s_id b2) extra) by (eapply X; eauto). rewrite Nat.add_0_r.
+           rewrite <- Ec in Hcn. exact (inv_closing s I _ _ _ H2' Hcn).
+        -- exact (inv_closing s I _ _ _ H2' Hc2').
+  - constructor; unfold apply; cbn [subs conns table id_base notif_meth].
+    + (* io_fifo *)
+      intros h2 b2 cn2 H2 Hc2. rewrite log_of_app, (lo_fifo _ _ _ _ _ _ _ _ _ _ _ _ L).
+      destruct (upd_lookup _ _ _ _ _ _ _ Hb H2) as [[-> ->] | [Ne H2']].
+      * rewrite St1 in Hc2. rewrite nth_error_upd_same with (b := cn) in Hc2 by assumption. inversion Hc2; subst cn2.
+        rewrite Nat.eqb_refl, St2, Co3, filter_map_app. f_equal. exact (io_fifo s o IO _ _ _ Hb Hcn).
+      * destruct (Nat.eqb_spec h2 h); [contradiction|]. rewrite app_nil_r.
+        destruct (upd_lookup _ _ _ _ _ _ _ Hcn Hc2) as [[Ec ->] | [Nc Hc2']].
+        -- rewrite Co3, filter_map_app. rewrite (plain_none (s_id b2) extra) by (eapply X; eauto). rewrite app_nil_r.
+           rewrite <- Ec in Hcn. exact (io_fifo s o IO _ _ _ H2' Hcn).
+        -- exact (io_fifo s o IO _ _ _ H2' Hc2').
+    + (* io_bound *)
+      intros h2 k x ok Hin. rewrite length_upd. apply in_app_or in Hin. destruct Hin as [Hin | Hin].
+      * exact (io_bound s o IO _ _ _ _ Hin).
+      * apply (lo_obs _ _ _ _ _ _ _ _ _ _ _ _ L) in Hin. subst. apply nth_error_Some. congruence.
+    + (* io_unsub *)
+      intros h2 b2 H2 Ha Hu Hs. destruct (upd_lookup _ _ _ _ _ _ _ Hb H2) as [[-> ->] | [Ne H2']].
+      * destruct (lo_unsub _ _ _ _ _ _ _ _ _ _ _ _ L Ha Hu Hs) as [Ha' [Hu' Hs']].
+        destruct (io_unsub s o IO _ _ Hb Ha' Hu' Hs') as [req Hr]. exists req. rewrite St1, St2. apply in_or_app. left. assumption.
+      * destruct (io_unsub s o IO _ _ H2' Ha Hu Hs) as [req Hr]. exists req. apply in_or_app. left. assumption.
+  - split.
+    + intros c2. unfold conn_open, apply. cbn [conns]. rewrite nth_error_upd. destruct (Nat.eqb_spec c2 (s_conn b)) as [->|].
+      * rewrite Hcn. cbn. rewrite Co1. auto.
+      * auto.
+    + intros h2 b2 H2. destruct (T _ _ H2) as [b2' [H2' [Ss [Ac _]]]]. exists b2'. auto.
+Qed.
